@@ -938,3 +938,36 @@ M('C11', 'inline-cells-keeps-both-sides-removal', STR, "            rdiff = []\n
   "            rdiff = d.local_diff[1:] + d.remote_diff[1:]\n", 'R11.13')
 T('C11', 'twin-inline-cells-removal-by-conditional-expression', STR, "            rdiff = []\n            if len(d.local_diff) > 1:\n                rdiff.append(d.local_diff[1])\n            elif len(d.remote_diff) > 1:\n                rdiff.append(d.remote_diff[1])\n",
   "            rdiff = []\n            if len(d.local_diff) > 1:\n                rdiff = [d.local_diff[1]]\n            elif len(d.remote_diff) > 1:\n                rdiff = [d.remote_diff[1]]\n")
+M('C15', 'python-side-repairs-merged-document', DEC, "    merged = nbformat.from_dict(merged)\n    return merged\n",
+  "    merged = nbformat.from_dict(merged)\n    for i, c in enumerate(merged.get('cells', [])):\n        c.setdefault('metadata', {})\n    return merged\n", 'R15.11')
+T('C15', 'twin-conversion-and-return-in-one', DEC, "    merged = nbformat.from_dict(merged)\n    return merged\n", "    merged = nbformat.from_dict(merged)\n    'converted'\n    return merged\n")
+M('C15', 'onesided-chunks-registered-in-a-first-pass', MG, "    for (key, chunk_end, d0, d1) in chunks:\n        item_path = path + (key,)\n",
+  "    twosided = []\n    for chunk in chunks:\n        if bool(chunk[2]) != bool(chunk[3]):\n            decisions.onesided(path, chunk[2], chunk[3])\n        elif chunk[2]:\n            twosided.append(chunk)\n    for (key, chunk_end, d0, d1) in twosided:\n        item_path = path + (key,)\n", 'R15.12')
+T('C15', 'twin-chunk-loop-with-enumerate-free-alias', MG, "    for (key, chunk_end, d0, d1) in chunks:\n        item_path = path + (key,)\n",
+  "    for chunk in chunks:\n        (key, chunk_end, d0, d1) = chunk\n        item_path = path + (key,)\n")
+M('C16', 'nbshow-reads-without-conversion', 'nbdime/nbshowapp.py', "        nb = nbformat.read(fn, as_version=4)", "        nb = nbformat.read(fn, as_version=nbformat.NO_CONVERT)", 'R16.20')
+M('C16', 'git-header-cut-at-first-hunk-unchecked', PP, '    return "".join(diff.splitlines(True)[4:])', "    return diff[re.search(r'^@@ ', diff, flags=re.M).start():]", 'R16.21')
+T('C16', 'twin-git-header-cut-at-first-hunk-checked', PP, '    return "".join(diff.splitlines(True)[4:])',
+  "    m = re.search(r'^@@ ', diff, flags=re.M)\n    if m is not None and len(diff.splitlines(True)[:4]) == 4 and m.start() == len(''.join(diff.splitlines(True)[:4])):\n        return diff[m.start():]\n    return \"\".join(diff.splitlines(True)[4:])")
+M('C17', 'path-filters-globbed-against-cwd', ARGS, "    return base, remote, paths\n\n\ndef add_merge_args", "    if paths:\n        import glob\n        paths = [m for p in ([paths] if isinstance(paths, str) else paths) for m in (glob.glob(p) or [p])]\n    return base, remote, paths\n\n\ndef add_merge_args", 'R17.15')
+T('C17', 'twin-path-filters-copied-to-a-list', ARGS, "    return base, remote, paths\n\n\ndef add_merge_args", "    if isinstance(paths, tuple):\n        paths = list(paths)\n    return base, remote, paths\n\n\ndef add_merge_args")
+M('C17', 'clean-filter-run-without-shell', 'nbdime/vcs/git/filter_integration.py', "                filter_cmd,\n                stdin=f,\n                stderr=STDOUT, shell=True\n", "                filter_cmd.split(),\n                stdin=f,\n                stderr=STDOUT\n", 'R17.16')
+T('C17', 'twin-clean-filter-keywords-reordered', 'nbdime/vcs/git/filter_integration.py', "                filter_cmd,\n                stdin=f,\n                stderr=STDOUT, shell=True\n", "                filter_cmd,\n                shell=True,\n                stdin=f,\n                stderr=STDOUT\n")
+M('C18', 'attributes-looked-up-in-parent-directories', UT, "        if not os.path.exists(os.path.join(path, '.git')):\n            return None\n",
+  "        while not os.path.exists(os.path.join(path, '.git')):\n            if os.path.dirname(path) == path:\n                return None\n            path = os.path.dirname(path)\n", 'R18.12')
+M('C18', 'git-probe-accepts-directories-only', UT, "        if not os.path.exists(os.path.join(path, '.git')):", "        if not os.path.isdir(os.path.join(path, '.git')):", 'R18.12')
+T('C18', 'twin-git-probe-by-lexists', UT, "        if not os.path.exists(os.path.join(path, '.git')):", "        if not os.path.lexists(os.path.join(path, '.git')):")
+M('C18', 'driver-section-removed-only-for-the-default-command', DDR, "    try:\n        check_call(cmd + ['--remove-section', 'diff.jupyternotebook'])",
+  "    from subprocess import check_output\n    try:\n        cur = check_output(cmd + ['--get', 'diff.jupyternotebook.command']).decode().strip()\n    except CalledProcessError:\n        return\n    if cur != 'git-nbdiffdriver diff':\n        return\n    try:\n        check_call(cmd + ['--remove-section', 'diff.jupyternotebook'])", 'R18.13')
+M('C19', 'config-keys-normalised-on-update', CFGPY, "    for k, v in new.items():\n        if isinstance(v, dict):", "    for k, v in new.items():\n        k = k.replace('-', '_')\n        if isinstance(v, dict):", 'R19.12')
+M('C20', 'api-diff-answers-from-any-tools-arguments', SRV, "        if 'difftool_args' in self.params:\n            arg = self.params['difftool_args'][argname]",
+  "        tool_args = self.params.get('difftool_args') or self.params.get('mergetool_args')\n        if tool_args is not None:\n            arg = tool_args[argname]", 'R20.16')
+M('C19', 'working-directory-config-applied-first-not-last', CFGPY, "    path = jupyter_config_path()\n    path.insert(0, os.getcwd())\n", "    path = jupyter_config_path() + [os.getcwd()]\n", 'R19.3')
+T('C19', 'twin-search-path-built-by-concatenation', CFGPY, "    path = jupyter_config_path()\n    path.insert(0, os.getcwd())\n", "    path = [os.getcwd()] + jupyter_config_path()\n")
+M('C12', 'strategies-default-transients-shared', UT, '    def __init__(self, *args, **kwargs):\n        self.transients = kwargs.pop("transients", [])\n        self.fall_back = kwargs.pop("fall_back", None)\n',
+  '    def __init__(self, *args, transients=[], fall_back=None, **kwargs):\n        self.transients = transients\n        self.fall_back = fall_back\n', 'R12.13')
+T('C12', 'twin-strategies-default-transients-none', UT, '    def __init__(self, *args, **kwargs):\n        self.transients = kwargs.pop("transients", [])\n        self.fall_back = kwargs.pop("fall_back", None)\n',
+  '    def __init__(self, *args, transients=None, fall_back=None, **kwargs):\n        self.transients = [] if transients is None else transients\n        self.fall_back = fall_back\n')
+M('C19', 'configured-ignores-dropped-when-a-flag-is-given', ARGS, "            if ignore:\n                set_notebook_diff_ignores(ignore)", "            if ignore and not (args and any(a.startswith('-') for a in args)):\n                set_notebook_diff_ignores(ignore)", 'R19.13')
+T('C19', 'twin-configured-ignores-tested-for-none', ARGS, "            if ignore:\n                set_notebook_diff_ignores(ignore)", "            if ignore is not None and ignore:\n                set_notebook_diff_ignores(ignore)")
+M('C06', 'cell-ids-demoted-below-content', NBD, "        compare_cell_strict,\n        compare_cell_by_ids,\n        ],", "        compare_cell_by_ids,\n        compare_cell_strict,\n        ],", 'R06.2')
